@@ -23,3 +23,36 @@ for tag, body in (("FINDINGS", findings), ("SEEDED", seeded)):
     s = pat.sub(lambda m: m.group(1) + "\n" + body + "\n" + m.group(2), s)
 p.write_text(s)
 print("DESIGN.md tables regenerated")
+
+# ---- section 9.7: final state table
+import re as _re
+props = sorted(json.loads(l)["id"] for l in open(V / "properties.jsonl"))
+kf = json.loads((V / "known_findings.json").read_text())["findings"]
+rows = ["| property | theorems (all closed) | translator tie | fixed findings | open findings | seeded changes kept (caught at once / after strengthening) | quick wall s (last run) |", "|---|---|---|---|---|---|---|"]
+tot = [0, 0, 0, 0, 0]
+for pid in props:
+    pf = V / "coq" / "theories" / "Properties" / f"{pid}.v"
+    n = len(_re.findall(r"^\s*Theorem\s", pf.read_text(), flags=_re.M)) if pf.exists() else 0
+    ent = V / "manifest_entries" / f"{pid}.json"
+    tr = "yes" if ent.exists() and json.loads(ent.read_text()).get("translator") else "-"
+    fx = sum(1 for e in kf if e["property"] == pid and e["status"] == "fixed")
+    op = sum(1 for e in kf if e["property"] == pid and e["status"] == "open")
+    sc = sm = 0
+    for m in (V / "seeded").glob(f"{pid}-*/meta.json"):
+        r = json.loads(m.read_text())["check_result"]
+        if r == "CAUGHT": sc += 1
+        else: sm += 1
+    ev = V / "evidence" / f"{pid}.json"
+    wall = "-"
+    if ev.exists():
+        try: wall = str(round(json.loads(ev.read_text()).get("wall_s", 0)))
+        except Exception: pass
+    rows.append(f"| {pid} | {n} | {tr} | {fx} | {op} | {sc} / {sm} | {wall} |")
+    tot[0] += n; tot[1] += fx; tot[2] += op; tot[3] += sc; tot[4] += sm
+rows.append(f"| total | {tot[0]} | | {tot[1]} | {tot[2]} | {tot[3]} / {tot[4]} | |")
+s = p.read_text()
+pat = re.compile(r"(<!-- FINAL:BEGIN -->).*?(<!-- FINAL:END -->)", re.S)
+if pat.search(s):
+    s = pat.sub(lambda m: m.group(1) + "\n" + "\n".join(rows) + "\n" + m.group(2), s)
+    p.write_text(s)
+    print("final-state table regenerated")
